@@ -28,6 +28,7 @@ import (
 	"github.com/openGemini/openGemini/lib/record"
 	"github.com/openGemini/openGemini/lib/statisticsPusher/statistics"
 	"github.com/openGemini/openGemini/lib/util/lifted/vm/protoparser/influx"
+	"github.com/openGemini/openGemini/lib/verifhook"
 	"github.com/pingcap/failpoint"
 )
 
@@ -149,6 +150,7 @@ func (storage *tsstoreImpl) writeSnapshot(s *shard) {
 		s.SnapShotter.RaftFlushC <- true
 		atomic.StoreUint32(&s.SnapShotter.RaftFlag, 1)
 	}
+	verifhook.Yield("writeSnapshot.afterSwap")
 	s.snapshotLock.Unlock()
 
 	start := time.Now()
@@ -167,6 +169,7 @@ func (storage *tsstoreImpl) writeSnapshot(s *shard) {
 		time.Sleep(2 * time.Second)
 	})
 
+	verifhook.Yield("writeSnapshot.beforeDrop")
 	s.snapshotLock.Lock()
 	s.snapshotTbl.UnRef()
 	s.snapshotTbl = nil
